@@ -49,44 +49,44 @@ func Tier() string {
 }
 
 type ReplayFile struct {
-	Property  string     `json:"property"`
-	Harness   string     `json:"harness"`
-	Seed      uint64     `json:"seed"`
-	Tape      []int      `json:"tape"`
-	Violation *Violation `json:"violation"`
-	LogHash   string     `json:"log_hash"`
-	Log       []string   `json:"log"`
-	Sample    any        `json:"sample,omitempty"`
-	Counters  map[string]int64 `json:"fired,omitempty"`
-	Shrunk    bool       `json:"shrunk"`
-	ShrinkNote string    `json:"shrink_note,omitempty"`
-	Tier      string     `json:"tier,omitempty"`
+	Property   string           `json:"property"`
+	Harness    string           `json:"harness"`
+	Seed       uint64           `json:"seed"`
+	Tape       []int            `json:"tape"`
+	Violation  *Violation       `json:"violation"`
+	LogHash    string           `json:"log_hash"`
+	Log        []string         `json:"log"`
+	Sample     any              `json:"sample,omitempty"`
+	Counters   map[string]int64 `json:"fired,omitempty"`
+	Shrunk     bool             `json:"shrunk"`
+	ShrinkNote string           `json:"shrink_note,omitempty"`
+	Tier       string           `json:"tier,omitempty"`
 }
 
 type WorkerOut struct {
-	Property   string            `json:"property"`
-	Harness    string            `json:"harness"`
-	Worker     int               `json:"worker"`
-	BatchSeed  uint64            `json:"batch_seed"`
-	Runs       int               `json:"runs"`
-	Cases      int               `json:"cases"`
-	Events     int               `json:"events"`
-	WallS      float64           `json:"wall_s"`
-	VirtualS   float64           `json:"virtual_s"`
-	Counters   map[string]int64  `json:"counters"`
-	States     []string          `json:"states"`
-	Trans      []string          `json:"transitions"`
-	Samples    []any             `json:"samples"`
-	KnownHits  map[string]int    `json:"known_hits"`
-	Violation  *Violation        `json:"violation,omitempty"`
-	ReplayPath string            `json:"replay_path,omitempty"`
-	Nontrivial int               `json:"nontrivial_runs"`
-	HashFile   string            `json:"hash_file"`
-	Real       []string          `json:"real"`
-	Stub       []string          `json:"stub"`
-	Rule       string            `json:"rule"`
-	Status     string            `json:"status"` // ok | violation | replay-ok | replay-mismatch
-	Detail     string            `json:"detail,omitempty"`
+	Property   string           `json:"property"`
+	Harness    string           `json:"harness"`
+	Worker     int              `json:"worker"`
+	BatchSeed  uint64           `json:"batch_seed"`
+	Runs       int              `json:"runs"`
+	Cases      int              `json:"cases"`
+	Events     int              `json:"events"`
+	WallS      float64          `json:"wall_s"`
+	VirtualS   float64          `json:"virtual_s"`
+	Counters   map[string]int64 `json:"counters"`
+	States     []string         `json:"states"`
+	Trans      []string         `json:"transitions"`
+	Samples    []any            `json:"samples"`
+	KnownHits  map[string]int   `json:"known_hits"`
+	Violation  *Violation       `json:"violation,omitempty"`
+	ReplayPath string           `json:"replay_path,omitempty"`
+	Nontrivial int              `json:"nontrivial_runs"`
+	HashFile   string           `json:"hash_file"`
+	Real       []string         `json:"real"`
+	Stub       []string         `json:"stub"`
+	Rule       string           `json:"rule"`
+	Status     string           `json:"status"` // ok | violation | replay-ok | replay-mismatch
+	Detail     string           `json:"detail,omitempty"`
 }
 
 func envInt(name string, def int) int {
@@ -338,6 +338,8 @@ func mainReplay(t *testing.T, h Harness, out string) {
 	if rf.Tier != "" {
 		os.Setenv("VERIF_TIER", rf.Tier)
 	}
+	// as in search mode a run that hits a recorded known finding keeps going (the violation to reproduce may come later)
+	globalKnown = loadKnown(h.Prop)
 	r := ExecRun(t, h, NewReplayTape(rf.Seed, rf.Tape))
 	wo := WorkerOut{Property: h.Prop, Harness: h.Name, Runs: 1, Events: r.Events, Counters: r.Counters}
 	var got *Violation
